@@ -6,6 +6,7 @@ package verifsim
 // is then executed for real inside the run's scratch directory.
 
 import (
+	"time"
 	"errors"
 	"io"
 	"io/fs"
@@ -38,6 +39,10 @@ type FSState struct {
 	Fault func(op *FSOp) error
 	// OnOp is called after a successful mutating operation (oracles hook here).
 	OnOp func(op *FSOp)
+	// Delay makes an operation slow: the caller sleeps that long (on the bubble's
+	// clock, other goroutines go on) before the operation is carried out.
+	Delay   func(op *FSOp) time.Duration
+	Delayed int
 
 	tornFor      string
 	tornPermille int
@@ -79,10 +84,22 @@ func fsEnter(site, kind, path, path2 string, mut bool, n int, off int64) (*Sched
 		f.Torn = op
 	}
 	fault := f.Fault
+	delay := f.Delay
 	f.mu.Unlock()
 	s.Progress()
 	if torn > 0 {
 		return s, op, torn, nil
+	}
+	if delay != nil {
+		if d := delay(op); d > 0 {
+			f.mu.Lock()
+			f.Delayed++
+			f.mu.Unlock()
+			time.Sleep(d)
+			if s.IsDead(node) {
+				return s, nil, 0, ErrNodeDead
+			}
+		}
 	}
 	if fault != nil {
 		if err := fault(op); err != nil {
